@@ -133,6 +133,8 @@ def run(ctx):
                 if c.matches(r"Result::<.*>::ok$") and root and root[0] == "call" and root[1].matches(r"::parse$") and "parse::<u32>" in root[1].full:
                     n_some += 1
                     ctx.ok("C12-R2", "the function's value is `parse::<u32>(..).ok()` (Ok(v) → Some(v), Err → None)", c.where())
+                elif c.matches(r"from_residual$") and "Option" in c.func.get("full", ""):
+                    ctx.ok("C12-R2", "`?` on an Option propagates None (no match ⇒ no reference)", c.where())
                 else:
                     ctx.bad("C12-R2", "odd-return-call|%s" % c.name.split("::")[-1], "the function's value is produced by `%s`, not by the parse" % c.name, c.where())
         ctx.check(n_some == 1, "C12-R2", "some-count", "one place produces `Some` (%d)" % n_some, ex.where())
